@@ -589,7 +589,7 @@ class Output(object):
 
     def __init__(self, value, address='', public_hash=b'', public_key=b'', lock_script=b'', spent=False,
                  output_n=0, script_type=None, witver=0, encoding=None, spending_txid='', spending_index_n=None,
-                 strict=True, change=None, witness_type=None, network=DEFAULT_NETWORK):
+                 strict=True, change=None, witness_type=None, network=None):
         """
         Create a new transaction output
         
@@ -630,7 +630,7 @@ class Output(object):
         :type change: bool
         :param witness_type: Specify witness type: 'segwit' or 'legacy'. Determine from script, address or encoding if not specified.
         :type witness_type: str
-        :param network: Network, leave empty for default
+        :param network: Network, leave empty to use the network of the Address or HDKey object, or else the default network. An Address or HDKey object of another network is refused.
         :type network: str, Network
         """
 
@@ -639,6 +639,8 @@ class Output(object):
                                    "creating output")
 
         self.change = change
+        if network is None:
+            network = address.network if isinstance(address, (Address, HDKey)) else DEFAULT_NETWORK
         self.network = network
         if not isinstance(network, Network):
             self.network = Network(network)
@@ -675,7 +677,12 @@ class Output(object):
             # if not script_type:
             #     script_type = script_type_default(address.witness_type, address.multisig, True)
             self.public_hash = self._address_obj.hash_bytes
-            self.network = self._address_obj.network
+            if self._address_obj.network.name != self.network.name:
+                # Address of another network: only accept if its prefix is also valid in this output's network
+                network_guesses = deserialize_address(self._address, self._address_obj.encoding)['networks']
+                if self.network.name not in network_guesses:
+                    raise TransactionError("Network for output address %s is different from transaction network. "
+                                           "%s not in %s" % (self._address, self.network.name, network_guesses))
             self.encoding = self._address_obj.encoding
             self.witness_type = self._address_obj.witness_type
             if self._address_obj.witver:
